@@ -197,11 +197,12 @@ def store_part(ctx, bindir, d):
     if st["panics"]:
         raise lib.ToolError("store driver recorded %d panics that the trace accepted" % st["panics"])
     # vacuity guards
-    f = 1 if ctx.quick() else 6
-    need = {"rewinds_demoting": 3 * f, "rewinds_sparing": 3 * f, "oracle_answers": 500 * f, "oracle_mined_some": 15 * f,
-            "releases": 1 * f, "rewinds_forked": 3 * f, "terminal_persists": 5 * f, "cancels_pending": 3 * f,
-            "rewinds_below_history": 1 * f, "uncompleted": 1, "real_completed": real, "real_proofs": 2 * real,
-            "takes_ok": 2 * real}
+    # (the scripted first history alone reaches every category once or more, whatever the seed)
+    f = 1 if ctx.quick() else 4
+    need = {"rewinds_demoting": 3 * f, "rewinds_sparing": 2 * f, "oracle_answers": 300 * f, "oracle_mined_some": 15 * f,
+            "releases": 1 * f, "rewinds_forked": 2 * f, "terminal_persists": 4 * f, "cancels_pending": 1 * f,
+            "rewinds_below_history": 1 * f, "rewinds_refused_conflict": 1, "uncompleted": 1 * f, "real_completed": real,
+            "real_proofs": 2 * real, "takes_ok": 2 * real}
     low = ["%s=%d<%d" % (k, st[k], v) for k, v in need.items() if st[k] < v]
     for e in ("persist", "update_tx", "store_proved", "take", "cancel", "rewind", "scan", "block", "lock", "oracle"):
         if st["events"].get(e, 0) < 3:
